@@ -273,10 +273,12 @@ func (c *Conn) OpenUpstream(ctx context.Context, sessionID string, opts ...Upstr
 	var resp *message.UpstreamOpenResponse
 	var outages uint64
 	err := c.send(ctx, func(ctx context.Context) error {
+		// the mutex is not held during the exchange: Close, reconnect and other calls do not wait for this answer
 		c.wireConnMu.Lock()
-		defer c.wireConnMu.Unlock()
+		wireConn := c.wireConn
 		outages = c.state.Outages()
-		r, err := c.wireConn.SendUpstreamOpenRequest(ctx, &message.UpstreamOpenRequest{
+		c.wireConnMu.Unlock()
+		r, err := wireConn.SendUpstreamOpenRequest(ctx, &message.UpstreamOpenRequest{
 			SessionID:      upconf.SessionID,
 			AckInterval:    *upconf.AckInterval,
 			ExpiryInterval: upconf.ExpiryInterval,
@@ -582,9 +584,11 @@ func (c *Conn) SendMetadata(ctx context.Context, meta message.SendableMetadata, 
 				Persist: opt.Persist,
 			},
 		}
+		// the mutex is not held during the exchange: Close, reconnect and other calls do not wait for this answer
 		c.wireConnMu.Lock()
-		defer c.wireConnMu.Unlock()
-		resp, err := c.wireConn.SendUpstreamMetadata(ctx, upmeta)
+		wireConn := c.wireConn
+		c.wireConnMu.Unlock()
+		resp, err := wireConn.SendUpstreamMetadata(ctx, upmeta)
 		if err != nil {
 			return err
 		}
